@@ -207,6 +207,11 @@ func c11Scenarios(thorough bool) []*explore.Scenario {
 			}
 		}
 	}
+	// a scan next to a reader on the repository's plain OS file system, every file-system call a scheduling point (what
+	// Slice hands to the scanning thread must still be the scan's when it looks at it; nobody modifies the database)
+	for _, kind := range []string{"os", "osmmap"} {
+		scs = append(scs, &explore.Scenario{Name: "RFS-scan-" + kind, Base: "CH", Cfg: "BIGC", Threads: []explore.ThreadProg{scan, {op(explore.Get, "h1"), op(explore.Has, "o0")}}, Bound: 1, WrapFS: kind})
+	}
 	// one iterator shared by two threads, quiescent database (S2 has 3 live keys, E+puts none: use S2 and S3)
 	for _, b := range []string{"S2", "S3"} {
 		nx := explore.ThreadProg{op(explore.IterNext, ""), op(explore.IterNext, ""), op(explore.IterNext, ""), op(explore.IterNext, "")}
@@ -347,6 +352,7 @@ func init() {
 			"oracles: every pair was put before its Next returned; every key untouched during the scan is returned with its value; scan terminates and ErrIterationDone is sticky; writer ops linearizable; one iterator shared by two threads yields exactly the contents. states = distinct outcomes (scan results + final contents) + distinct quiescent images",
 		Assumptions:   []string{"scheduling points at sync operations (see C07)", "writer programs <= 2 ops, <= 2 writer threads"},
 		QuickBudget:   100 * time.Second,
+		ASLimitMB:     1 << 20, // fs.OSMMap reserves a gigabyte of address space per open file
 		ThorBudget:    25 * time.Minute,
 		Run:           runC11,
 		EvalKey:       "executions",
